@@ -120,6 +120,7 @@ void h_pill_real(void) {
     V_COVER("pill-accepted", r == 0); V_COVER("pill-refused", r != 0);
     V_CANARY();
 }
+#if defined(V_NATIVE) || defined(V_SUBREAL)     /* (kept out of the other units' builds: the extra void(void*) stub would become a destructor candidate for CBMC in every harness of this file) */
 /* ---- m_mod_ps_subscribe() on the real ps.c + real mem.c (C09, C04): the module's subscription table is keyed by the topic string of the subscription stored there.
  * The table is a one-entry recording stub with the semantics the map units prove for M_MAP_VAL_ALLOW_UPDATE tables (new key stored as given; an update KEEPS the stored
  * key and destroys the value it replaces; removal destroys the value).  Every pointer handed to the allocator's free is recorded, so "the key the table keeps was
@@ -167,6 +168,7 @@ void h_subscribe_real(void) {
     V_COVER("resubscribe-same-flags", r == 0 && (vin_autofree & 1) && fo == fn); V_COVER("subscribe-two-priorities-refused", r == -EINVAL);
     V_CANARY();
 }
+#endif
 #ifdef V_NATIVE
 /* the native replay links the whole ps.c: the map functions behind publish/broadcast are not reached by these harnesses (a recipient is always given) */
 m_map_itr_t *m_map_itr_new(const m_map_t *m) { (void)m; abort(); }
